@@ -89,6 +89,10 @@ fn inv(op: &Op, _ctx: &dyn Context, operands: &mut dyn CoordinateSet) -> usize {
                 continue 'points;
             }
         }
+
+        // No grid contained the point, or the iteration did not converge,
+        // so we stomp on the coordinate
+        operands.set_coord(i, &Coor4D::nan());
     }
 
     successes
